@@ -593,6 +593,14 @@ def uf_family(run, r, n):
         for rule in ('verit_sum_simplify', 'verit_prod_simplify', 'verit_minus_simplify', 'verit_unary_minus_simplify', 'verit_div_simplify'):
             for rhs in acands[:5]:
                 offer(rule, [Eq(e, rhs)], [], 'guessed')
+        # shapes of the unary-minus rule: -(-t), -(a - b), -(numeral)
+        a0, b0 = aexp(T, 1), aexp(T, 1)
+        for lhs_u, rhss_u in ((kterm.uminus(T)(kterm.uminus(T)(a0)), [a0, kterm.uminus(T)(a0), num(0)]),
+                              (kterm.uminus(T)(kterm.minus(T)(a0, b0)), [b0, a0, kterm.minus(T)(b0, a0), kterm.minus(T)(a0, b0)]),
+                              (kterm.uminus(T)(num(2)), [num(-2), num(2)])):
+            for rhs in rhss_u:
+                offer('verit_unary_minus_simplify', [Eq(lhs_u, rhs)], [], 'guessed')
+                offer('verit_minus_simplify', [Eq(lhs_u, rhs)], [], 'guessed')
         cmpc = r.choice([kterm.less, kterm.less_eq, kterm.greater, kterm.greater_eq])(T)
         l_, r_ = aexp(T, 1), aexp(T, 1)
         cl = cmpc(l_, r_)
